@@ -74,7 +74,7 @@ ExpandClauses(e) ==
       tree == Desc(pre.kids, root)
       refs == {n \in tree \ {root} : pre.name[n] = "references"}
       ids  == {IdOf(pre, n) : n \in {m \in tree : IdOf(pre, m) # NULL}}
-      holders(v) == {n \in tree : IdOf(pre, n) = v}
+      holders(v) == IF v = NULL THEN {} ELSE {n \in tree : IdOf(pre, n) = v}      \* a references node without text names nothing
       dup  == \E v \in ids : Cardinality(holders(v)) > 1
       dangling == \E r \in refs : holders(pre.content[r]) = {}
       shouldFail == dup \/ dangling
